@@ -1,7 +1,7 @@
 (** C30: printers used by the correspondence check only. *)
 From Coq Require Import List Arith NArith ZArith Bool String.
 From TwLib Require Import Show PyBytes Seg FramingShow.
-From C30 Require Import Model.
+From C30 Require Import Text Model.
 Import ListNotations.
 Local Open Scope string_scope.
 
@@ -31,6 +31,11 @@ Fixpoint show_val (v : val) : string :=
   | VStr s => "s" ++ show_hex s
   | VBool b => if b then "bT" else "bF"
   | VList l => "[" ++ String.concat "," (map show_val l) ++ "]"
+  | VDec (DFin neg c e) => "d" ++ (if neg then "-" else "") ++ show_N c ++ "e" ++ show_Z e
+  | VDec (DInf neg) => "d" ++ (if neg then "-" else "") ++ "Inf"
+  | VDec (DNaN neg sig p) => "d" ++ (if neg then "-" else "") ++ (if sig then "sNaN" else "NaN") ++ show_N p
+  | VDate t => "t" ++ String.concat "," (map show_N [yr t; mon t; day t; hr t; mnt t; sec t; usec t]) ++ "," ++ show_Z (off t)
+  | VUni s => "u" ++ String.concat "." (map show_N s)
   end.
 
 Inductive case :=
